@@ -2,7 +2,8 @@
 From Coq Require Import List NArith String.
 From TG.Gen Require Import GenTokens GenGrammar GenGrammarCert.
 From TG.Model Require Import Chars Lexer Prep Tree ParserPrims GInterp.
-From TG.Proofs Require Import LexBasics ParserTile GTile LookProg BldAn ParserMsgs CostAn CostSound ParserWork ParserTop.
+From TG.Model Require Import ParserMonad.
+From TG.Proofs Require Import LexBasics ParserTile GTile LookProg BldAn ParserMsgs CostAn CostSound ParserWork ParserTop GenParserEq ParserSource.
 Import ListNotations.
 
 (** THE PROPERTY (termination + panic-freedom), for the grammar regenerated from the current sources: on EVERY text
@@ -111,6 +112,29 @@ Theorem C02_reachable_states_tile : forall txt p n e en,
   match gexec n p e en (p_new txt) with RVal _ _ s | RBrk _ s | RRet _ _ s => Tile txt s | _ => True end.
 Proof. intros. apply (gexec_tile txt p n e en (p_new txt) (p_new_tile txt)). Qed.
 Print Assumptions C02_reachable_states_tile.
+
+(** * The tie to the source by TRANSLATION + PROOF (see props/C01.v: C01_prims_are_source) *)
+Theorem C02_prims_are_source : forall (fuel : nat) (p : prog) (entry : nat) (txt : text),
+  gparse_with fuel p entry txt = parse_view (parse_with fuel p entry txt).
+Proof. exact gparse_with_eq. Qed.
+Check C02_prims_are_source : forall (fuel : nat) (p : prog) (entry : nat) (txt : text),
+  gparse_with fuel p entry txt = parse_view (parse_with fuel p entry txt).
+Print Assumptions C02_prims_are_source.
+
+(** hence C02 for the source rendering itself (generated ParserBase methods over the generated preprocessor over the
+    generated lexer, driven by the regenerated grammar program): on EVERY text a tree and an error list -- no panic of
+    parser.rs (assert!, expect("error token without message"), TextRange::new), of the modelled rowan builder, of the
+    lexer's unreachable!() -- the tree is lossless, every error well-formed; and no fuel at all leads to a panic. *)
+Definition C02_serror_wf (txt : text) (e : syntax_error) : Prop :=
+  let '(lo, hi, m) := e in
+  m <> EmptyString /\ (lo <= hi)%N /\ (hi <= bytes txt)%N /\ on_char_boundary txt lo /\ on_char_boundary txt hi.
+Theorem C02_total_source : forall txt : text, exists fuel t es,
+  gparse_with fuel grammar_prog grammar_entry txt = GParseOk t es /\ lossless txt t /\ Forall (C02_serror_wf txt) es.
+Proof. exact source_total. Qed.
+Print Assumptions C02_total_source.
+Theorem C02_source_never_panics : forall fuel (txt : text), gparse_with fuel grammar_prog grammar_entry txt <> GParsePanic.
+Proof. exact source_never_panics. Qed.
+Print Assumptions C02_source_never_panics.
 
 (** Non-vacuity: an input with an unterminated string, an unterminated #ifdef and a stray character parses to ParseOk
     with 3 errors. *)
